@@ -487,7 +487,8 @@ func newSchemaType(spec *specification.Schema, components Componenter, cfg Confi
 			imports = append(imports, ims...)
 
 			if schema.Ref != nil {
-				if schema.IsNullable() {
+				// (asked of the specification: the generator's own view of a component built later is still a placeholder)
+				if a.Value().Nullable {
 					return nil, nil, fmt.Errorf("allOf: %d-th element: %q is nullable: a nullable schema cannot be a member of allOf", i, schema.Ref.Name)
 				}
 				s.Fields = append(s.Fields, StructureField{
